@@ -365,7 +365,7 @@ fn check_sock(c: &SockCase, obs: &mut Obs) -> CheckResult {
             L4::Udp { len, .. } if p.src_kind % 3 != 2 => {
                 let data = &l4[8..];
                 debug_assert_eq!(data.len(), *len as usize);
-                want_dgrams.push((data.to_vec(), h.clone()));
+                want_dgrams.push((data.to_vec(), h.clone(), u16::from_be_bytes([l4[0], l4[1]])));
             }
             L4::Error { ty, bad_checksum: false, .. } if matches!(ERR_TYPES[(*ty % 8) as usize], 1 | 2 | 4 | 5 | 6) => want_errors.push((ERR_TYPES[(*ty % 8) as usize], l4.clone(), h.clone())),
             L4::EchoRequest { bad_checksum: false, .. } if c.with_echo && reversed(h).is_some() => want_replies.push((h.clone(), l4.clone(), matches!(reversed(h), Some(Some(_))))),
@@ -376,14 +376,14 @@ fn check_sock(c: &SockCase, obs: &mut Obs) -> CheckResult {
     let desc = || format!("{} packets: {:?}", built.len(), built.iter().map(|b| format!("{:?}", b.0.l4)).collect::<Vec<_>>());
     // datagrams: exactly those, in order, intact
     ensure!(got.len() == want_dgrams.len(), "socket:datagram-count-differs", "application received {} datagrams, {} were sent; {}", got.len(), want_dgrams.len(), desc());
-    for (i, ((n, data, src, path), (wdata, wh))) in got.iter().zip(want_dgrams.iter()).enumerate() {
+    for (i, ((n, data, src, path), (wdata, wh, wport))) in got.iter().zip(want_dgrams.iter()).enumerate() {
         ensure!(*n == wdata.len(), "socket:datagram-length-differs", "datagram {i}: reported {n} bytes, sent {}", wdata.len());
         let k = wdata.len().min(cap);
         ensure!(data[..k.min(data.len())] == wdata[..k], "socket:datagram-payload-differs", "datagram {i}");
         let want_src = {
             let ia = IsdAsn(wh.src_ia);
             let ip: IpAddr = if wh.src_host.len() == 4 { IpAddr::from([wh.src_host[0], wh.src_host[1], wh.src_host[2], wh.src_host[3]]) } else { let mut a = [0u8; 16]; a.copy_from_slice(&wh.src_host); IpAddr::from(a) };
-            ScionSocketIpAddr::new(ia, ip, u16::from_be_bytes([built.iter().find(|b| b.2 == *wh && matches!(b.0.l4, L4::Udp { .. })).map(|b| b.3[0]).unwrap_or(0), built.iter().find(|b| b.2 == *wh && matches!(b.0.l4, L4::Udp { .. })).map(|b| b.3[1]).unwrap_or(0)])).to_string()
+            ScionSocketIpAddr::new(ia, ip, *wport).to_string()
         };
         ensure!(*src == want_src, "socket:datagram-sender-differs", "datagram {i}: sender {src}, expected {want_src}");
         if let Some(pb) = path {
